@@ -357,9 +357,9 @@ def rule_lean(form_line):
 
 VEX_REG_CLASSES = {"rvm": (0x72, 0x75), "rm": (0x68, 0x6B), "rvmi": (0x7A, 0x7C), "rmi": (0x6F, 0x71),
                    # legacy space: ExtRm, ExtRm_P, X86Rm, X86Rm_NoSize ([reg, rm]); X86Mr, X86Mr_NoSize ([rm, reg]); ExtRmi, ExtRmi_P ([reg, rm, imm8])
-                   "lrm": (0x4A, 0x4D, 0x14, 0x16), "lmr": (0x17, 0x18), "lrmi": (0x52, 0x53)}
+                   "lrm": (0x4A, 0x4D, 0x14, 0x16), "lmr": (0x17, 0x18), "lrmi": (0x52, 0x53), "lop": (0x01,)}
 SHAPE_ROLES = {"rvm": ["reg", "vvvv", "rm"], "rm": ["reg", "rm"], "rvmi": ["reg", "vvvv", "rm", "imm"], "rmi": ["reg", "rm", "imm"],
-               "lrm": ["reg", "rm"], "lmr": ["rm", "reg"], "lrmi": ["reg", "rm", "imm"]}
+               "lrm": ["reg", "rm"], "lmr": ["rm", "reg"], "lrmi": ["reg", "rm", "imm"], "lop": None}
 
 
 def class_rows_lean(kept, rows, chunk=96):
@@ -377,7 +377,10 @@ def class_rows_lean(kept, rows, chunk=96):
                 continue
             if legacy and f["arch"] == "X86":
                 continue      # 32-bit-only form (the class theorems are stated for 64-bit mode)
-            if roles != SHAPE_ROLES[shape]:
+            if shape == "lop":
+                if not all(o["implicit"] for o in f["operands"]) or f["imm"] or f["op"].get("mod") or f["op"].get("mm") == "0F01":
+                    continue
+            elif roles != SHAPE_ROLES[shape]:
                 continue
             if legacy:
                 pass
@@ -387,7 +390,7 @@ def class_rows_lean(kept, rows, chunk=96):
                 continue      # kPreferEvex instructions (AVX_VNNI / IFMA): the VEX form needs the `vex` option - not covered by the class theorems
             kinds = []
             okf = True
-            for o, role in zip(f["operands"], roles):
+            for o, role in zip(f["operands"] if shape != "lop" else [], roles):
                 if role == "imm":
                     if o["imm"] != 8:
                         okf = False
